@@ -122,9 +122,12 @@ def cases(seed, tier):
         g = int(rng.choice([4, 5, 8, 10]))
         b = int(rng.integers(max(12, g), 6 * g + 1))
         cores = int(rng.choice([1, 2, 4]))
+        mean = float(rng.choice([0.0, 5.0, -300.0, 1e4])) * float(rng.choice([1, 1e-3]))
+        noise = float(10 ** rng.uniform(-4, 3))
+        # the image is stored as float32: the noise must stay well above the representation error of the mean
+        noise = max(noise, 1e3 * ulp32(abs(mean))) if mean else noise
         out.append({'kind': 'gauss', 'image': {'shape': [rows, cols], 'seed': [seed, 'gauss', i], 'gauss': True,
-                                               'mean': float(rng.choice([0.0, 5.0, -300.0, 1e4])) * float(rng.choice([1, 1e-3])),
-                                               'noise': float(10 ** rng.uniform(-4, 3))},
+                                               'mean': mean, 'noise': noise},
                     'grid': [g, g], 'box': [b, b], 'cores': cores, 'nslice': int(rng.integers(1, cores + 1))})
     n_c = 4 if tier == 'quick' else 40
     for i in range(n_c):
@@ -428,7 +431,10 @@ def run(case):
             from astropy.io import fits
             img = make_image(case['image'])
             p = os.path.join(sc, 'f.fits')
-            bh.write_fits(p, img)
+            # compressed output needs a celestial WCS in the header (compress rescales CRPIX/CDELT)
+            bh.write_fits(p, img, header={'CTYPE1': 'RA---SIN', 'CTYPE2': 'DEC--SIN', 'CRVAL1': 10.0, 'CRVAL2': -30.0,
+                                          'CRPIX1': img.shape[1] / 2.0, 'CRPIX2': img.shape[0] / 2.0,
+                                          'CDELT1': -0.002, 'CDELT2': 0.002})
             ob = os.path.join(sc, 'out')
             sp = dict(base, k=0, image=p, shape=list(img.shape), save=os.path.join(sc, 'f'), out_base=ob,
                       compressed=case['compressed'])
@@ -465,9 +471,13 @@ def run(case):
                         # grid nodes of the compression must carry the returned values
                         a = d[::g, ::g]
                         bnode = arr[::g, ::g]
-                        if not np.array_equal(a, bnode, equal_nan=True):
+                        # (expand spreads a blank node to its neighbours - outside C15's judged domain - so nodes are
+                        # compared where both are finite)
+                        both = np.isfinite(a) & np.isfinite(bnode)
+                        o.count('compressed_nodes_compared', int(both.sum()))
+                        if both.any() and not np.array_equal(a[both], bnode[both]):
                             o.violate('compressed_file_nodes_differ', {'file': name, 'case': case,
-                                                                       'max': float(np.nanmax(np.abs(a - bnode)))})
+                                                                       'max': float(np.max(np.abs(a[both] - bnode[both])))})
             o.sample = {'image': case['image'], 'compressed': case['compressed']}
         return o.result()
     finally:
